@@ -362,6 +362,10 @@ func genC15(tier, out string, sum *Summary) {
 				if first.Kind == "err" && o.Kind == "err" {
 					continue // several sub-expressions fail: which fault is reported may vary
 				}
+				if un && orderSensitive(e) {
+					sum.count("enumeration-then-position")
+					continue // a position, comparison or order-sensitive function applied to an enumerated array inherits the permitted variation
+				}
 				sum.direct("determinism", text, doc, fmt.Sprintf("first evaluation gives %s, evaluation on an equal, differently built document gives %s", describe(first), describe(o)))
 			}
 		}
@@ -389,4 +393,47 @@ func genDocWide() any {
 	}
 	m["a"] = w
 	return m
+}
+
+// does the expression apply something position- or order-sensitive (index, slice, comparison,
+// order-sensitive function) anywhere? Then a permuted enumeration may legitimately change the value.
+func orderSensitive(e *R) bool {
+	if e == nil {
+		return false
+	}
+	switch e.K {
+	case KIndex, KCmp:
+		return true
+	case KProj:
+		if e.PK == PSlice || e.PK == PFlatten {
+			return true
+		}
+	case KCall:
+		switch e.Name {
+		case "keys", "values", "items", "length", "sort", "type", "not_null", "to_array", "contains", "merge", "sum", "avg", "max", "min", "map", "group_by":
+		default:
+			return true
+		}
+	case KOr, KAnd, KNot:
+		// truthiness of an enumerated array does not depend on its order
+	}
+	if orderSensitive(e.L) || orderSensitive(e.Rt) || orderSensitive(e.Cond) {
+		return true
+	}
+	for _, x := range e.Es {
+		if orderSensitive(x) {
+			return true
+		}
+	}
+	for _, kv := range e.KEs {
+		if orderSensitive(kv.E) {
+			return true
+		}
+	}
+	for _, a := range e.Args {
+		if orderSensitive(a.E) {
+			return true
+		}
+	}
+	return false
 }
